@@ -268,6 +268,19 @@ fn stress(cfg: &Cfg, out: &mut Out) {
                 if tail.is_empty() && (l % 8 <= 1 || i == l / 2) {
                     one_bytes(out, &a, &pat);
                 }
+                // two adjacent bytes exchanged (same multiset / OR / sum per word, different text)
+                if tail.is_empty() && i + 1 < l && l >= 15 && pat[i] != pat[i + 1] {
+                    let mut sw = pat.clone();
+                    sw.swap(i, i + 1);
+                    one_str(out, std::str::from_utf8(&sw).unwrap(), &pats);
+                    // ... and two bytes whose OR equals the OR of the pattern's bytes
+                    let mut orr = pat.clone();
+                    orr[i] = pat[i] | pat[i + 1];
+                    orr[i + 1] = pat[i] & pat[i + 1] | 0x40;
+                    if orr != pat {
+                        one_bytes(out, &orr, &pat);
+                    }
+                }
             }
         }
     }
